@@ -32,6 +32,18 @@ let rec app l m =
   | [] -> m
   | a :: l1 -> a :: (app l1 m)
 
+type comparison =
+| Eq
+| Lt
+| Gt
+
+(** val compOpp : comparison -> comparison **)
+
+let compOpp = function
+| Eq -> Eq
+| Lt -> Gt
+| Gt -> Lt
+
 type uint =
 | Nil
 | D0 of uint
@@ -163,6 +175,11 @@ type n =
 | N0
 | Npos of positive
 
+type z =
+| Z0
+| Zpos of positive
+| Zneg of positive
+
 module Nat =
  struct
   (** val sub : nat -> nat -> nat **)
@@ -173,6 +190,17 @@ module Nat =
     | S k -> (match m with
               | O -> n0
               | S l -> sub k l)
+
+  (** val eqb : nat -> nat -> bool **)
+
+  let rec eqb n0 m =
+    match n0 with
+    | O -> (match m with
+            | O -> true
+            | S _ -> false)
+    | S n' -> (match m with
+               | O -> false
+               | S m' -> eqb n' m')
 
   (** val leb : nat -> nat -> bool **)
 
@@ -198,9 +226,25 @@ module Nat =
   let modulo x = function
   | O -> x
   | S y' -> sub y' (snd (divmod x y' O y'))
+
+  (** val div2 : nat -> nat **)
+
+  let rec div2 = function
+  | O -> O
+  | S n1 -> (match n1 with
+             | O -> O
+             | S n' -> S (div2 n'))
  end
 
 module Pos =
+ struct
+  type mask =
+  | IsNul
+  | IsPos of positive
+  | IsNeg
+ end
+
+module Coq_Pos =
  struct
   (** val succ : positive -> positive **)
 
@@ -248,6 +292,72 @@ module Pos =
        | XO q -> XO (succ q)
        | XH -> XI XH)
 
+  (** val pred_double : positive -> positive **)
+
+  let rec pred_double = function
+  | XI p -> XI (XO p)
+  | XO p -> XI (pred_double p)
+  | XH -> XH
+
+  type mask = Pos.mask =
+  | IsNul
+  | IsPos of positive
+  | IsNeg
+
+  (** val succ_double_mask : mask -> mask **)
+
+  let succ_double_mask = function
+  | IsNul -> IsPos XH
+  | IsPos p -> IsPos (XI p)
+  | IsNeg -> IsNeg
+
+  (** val double_mask : mask -> mask **)
+
+  let double_mask = function
+  | IsPos p -> IsPos (XO p)
+  | x0 -> x0
+
+  (** val double_pred_mask : positive -> mask **)
+
+  let double_pred_mask = function
+  | XI p -> IsPos (XO (XO p))
+  | XO p -> IsPos (XO (pred_double p))
+  | XH -> IsNul
+
+  (** val sub_mask : positive -> positive -> mask **)
+
+  let rec sub_mask x y =
+    match x with
+    | XI p ->
+      (match y with
+       | XI q -> double_mask (sub_mask p q)
+       | XO q -> succ_double_mask (sub_mask p q)
+       | XH -> IsPos (XO p))
+    | XO p ->
+      (match y with
+       | XI q -> succ_double_mask (sub_mask_carry p q)
+       | XO q -> double_mask (sub_mask p q)
+       | XH -> IsPos (pred_double p))
+    | XH -> (match y with
+             | XH -> IsNul
+             | _ -> IsNeg)
+
+  (** val sub_mask_carry : positive -> positive -> mask **)
+
+  and sub_mask_carry x y =
+    match x with
+    | XI p ->
+      (match y with
+       | XI q -> succ_double_mask (sub_mask_carry p q)
+       | XO q -> double_mask (sub_mask p q)
+       | XH -> IsPos (pred_double p))
+    | XO p ->
+      (match y with
+       | XI q -> double_mask (sub_mask_carry p q)
+       | XO q -> succ_double_mask (sub_mask_carry p q)
+       | XH -> double_pred_mask p)
+    | XH -> IsNeg
+
   (** val mul : positive -> positive -> positive **)
 
   let rec mul x y =
@@ -255,6 +365,36 @@ module Pos =
     | XI p -> add y (XO (mul p y))
     | XO p -> XO (mul p y)
     | XH -> y
+
+  (** val size_nat : positive -> nat **)
+
+  let rec size_nat = function
+  | XI p0 -> S (size_nat p0)
+  | XO p0 -> S (size_nat p0)
+  | XH -> S O
+
+  (** val compare_cont : comparison -> positive -> positive -> comparison **)
+
+  let rec compare_cont r x y =
+    match x with
+    | XI p ->
+      (match y with
+       | XI q -> compare_cont r p q
+       | XO q -> compare_cont Gt p q
+       | XH -> Gt)
+    | XO p ->
+      (match y with
+       | XI q -> compare_cont Lt p q
+       | XO q -> compare_cont r p q
+       | XH -> Gt)
+    | XH -> (match y with
+             | XH -> r
+             | _ -> Lt)
+
+  (** val compare : positive -> positive -> comparison **)
+
+  let compare =
+    compare_cont Eq
 
   (** val eqb : positive -> positive -> bool **)
 
@@ -318,11 +458,23 @@ module Pos =
 
 module N =
  struct
+  (** val succ_double : n -> n **)
+
+  let succ_double = function
+  | N0 -> Npos XH
+  | Npos p -> Npos (XI p)
+
+  (** val double : n -> n **)
+
+  let double = function
+  | N0 -> N0
+  | Npos p -> Npos (XO p)
+
   (** val succ : n -> n **)
 
   let succ = function
   | N0 -> Npos XH
-  | Npos p -> Npos (Pos.succ p)
+  | Npos p -> Npos (Coq_Pos.succ p)
 
   (** val add : n -> n -> n **)
 
@@ -331,7 +483,20 @@ module N =
     | N0 -> m
     | Npos p -> (match m with
                  | N0 -> n0
-                 | Npos q -> Npos (Pos.add p q))
+                 | Npos q -> Npos (Coq_Pos.add p q))
+
+  (** val sub : n -> n -> n **)
+
+  let sub n0 m =
+    match n0 with
+    | N0 -> N0
+    | Npos n' ->
+      (match m with
+       | N0 -> n0
+       | Npos m' ->
+         (match Coq_Pos.sub_mask n' m' with
+          | Coq_Pos.IsPos p -> Npos p
+          | _ -> N0))
 
   (** val mul : n -> n -> n **)
 
@@ -340,7 +505,18 @@ module N =
     | N0 -> N0
     | Npos p -> (match m with
                  | N0 -> N0
-                 | Npos q -> Npos (Pos.mul p q))
+                 | Npos q -> Npos (Coq_Pos.mul p q))
+
+  (** val compare : n -> n -> comparison **)
+
+  let compare n0 m =
+    match n0 with
+    | N0 -> (match m with
+             | N0 -> Eq
+             | Npos _ -> Lt)
+    | Npos n' -> (match m with
+                  | N0 -> Gt
+                  | Npos m' -> Coq_Pos.compare n' m')
 
   (** val eqb : n -> n -> bool **)
 
@@ -351,25 +527,105 @@ module N =
              | Npos _ -> false)
     | Npos p -> (match m with
                  | N0 -> false
-                 | Npos q -> Pos.eqb p q)
+                 | Npos q -> Coq_Pos.eqb p q)
+
+  (** val leb : n -> n -> bool **)
+
+  let leb x y =
+    match compare x y with
+    | Gt -> false
+    | _ -> true
+
+  (** val ltb : n -> n -> bool **)
+
+  let ltb x y =
+    match compare x y with
+    | Lt -> true
+    | _ -> false
+
+  (** val div2 : n -> n **)
+
+  let div2 = function
+  | N0 -> N0
+  | Npos p0 -> (match p0 with
+                | XI p -> Npos p
+                | XO p -> Npos p
+                | XH -> N0)
+
+  (** val even : n -> bool **)
+
+  let even = function
+  | N0 -> true
+  | Npos p -> (match p with
+               | XO _ -> true
+               | _ -> false)
+
+  (** val odd : n -> bool **)
+
+  let odd n0 =
+    negb (even n0)
+
+  (** val size_nat : n -> nat **)
+
+  let size_nat = function
+  | N0 -> O
+  | Npos p -> Coq_Pos.size_nat p
+
+  (** val pos_div_eucl : positive -> n -> n * n **)
+
+  let rec pos_div_eucl a b =
+    match a with
+    | XI a' ->
+      let (q, r) = pos_div_eucl a' b in
+      let r' = succ_double r in
+      if leb b r' then ((succ_double q), (sub r' b)) else ((double q), r')
+    | XO a' ->
+      let (q, r) = pos_div_eucl a' b in
+      let r' = double r in
+      if leb b r' then ((succ_double q), (sub r' b)) else ((double q), r')
+    | XH ->
+      (match b with
+       | N0 -> (N0, (Npos XH))
+       | Npos p -> (match p with
+                    | XH -> ((Npos XH), N0)
+                    | _ -> (N0, (Npos XH))))
+
+  (** val div_eucl : n -> n -> n * n **)
+
+  let div_eucl a b =
+    match a with
+    | N0 -> (N0, N0)
+    | Npos na -> (match b with
+                  | N0 -> (N0, a)
+                  | Npos _ -> pos_div_eucl na b)
+
+  (** val div : n -> n -> n **)
+
+  let div a b =
+    fst (div_eucl a b)
+
+  (** val modulo : n -> n -> n **)
+
+  let modulo a b =
+    snd (div_eucl a b)
 
   (** val to_nat : n -> nat **)
 
   let to_nat = function
   | N0 -> O
-  | Npos p -> Pos.to_nat p
+  | Npos p -> Coq_Pos.to_nat p
 
   (** val of_nat : nat -> n **)
 
   let of_nat = function
   | O -> N0
-  | S n' -> Npos (Pos.of_succ_nat n')
+  | S n' -> Npos (Coq_Pos.of_succ_nat n')
 
   (** val to_uint : n -> uint **)
 
   let to_uint = function
   | N0 -> D0 Nil
-  | Npos p -> Pos.to_uint p
+  | Npos p -> Coq_Pos.to_uint p
 
   (** val eq_dec : n -> n -> bool **)
 
@@ -380,7 +636,7 @@ module N =
              | Npos _ -> false)
     | Npos p -> (match m with
                  | N0 -> false
-                 | Npos p0 -> Pos.eq_dec p p0)
+                 | Npos p0 -> Coq_Pos.eq_dec p p0)
  end
 
 (** val zero : char **)
@@ -444,6 +700,16 @@ let n_of_ascii a =
 let nat_of_ascii a =
   N.to_nat (n_of_ascii a)
 
+(** val nth_error : 'a1 list -> nat -> 'a1 option **)
+
+let rec nth_error l = function
+| O -> (match l with
+        | [] -> None
+        | x :: _ -> Some x)
+| S n1 -> (match l with
+           | [] -> None
+           | _ :: l0 -> nth_error l0 n1)
+
 (** val map : ('a1 -> 'a2) -> 'a1 list -> 'a2 list **)
 
 let rec map f = function
@@ -503,6 +769,108 @@ let rec skipn n0 l =
   | S n1 -> (match l with
              | [] -> []
              | _ :: l0 -> skipn n1 l0)
+
+module Z =
+ struct
+  (** val double : z -> z **)
+
+  let double = function
+  | Z0 -> Z0
+  | Zpos p -> Zpos (XO p)
+  | Zneg p -> Zneg (XO p)
+
+  (** val succ_double : z -> z **)
+
+  let succ_double = function
+  | Z0 -> Zpos XH
+  | Zpos p -> Zpos (XI p)
+  | Zneg p -> Zneg (Coq_Pos.pred_double p)
+
+  (** val pred_double : z -> z **)
+
+  let pred_double = function
+  | Z0 -> Zneg XH
+  | Zpos p -> Zpos (Coq_Pos.pred_double p)
+  | Zneg p -> Zneg (XI p)
+
+  (** val pos_sub : positive -> positive -> z **)
+
+  let rec pos_sub x y =
+    match x with
+    | XI p ->
+      (match y with
+       | XI q -> double (pos_sub p q)
+       | XO q -> succ_double (pos_sub p q)
+       | XH -> Zpos (XO p))
+    | XO p ->
+      (match y with
+       | XI q -> pred_double (pos_sub p q)
+       | XO q -> double (pos_sub p q)
+       | XH -> Zpos (Coq_Pos.pred_double p))
+    | XH ->
+      (match y with
+       | XI q -> Zneg (XO q)
+       | XO q -> Zneg (Coq_Pos.pred_double q)
+       | XH -> Z0)
+
+  (** val add : z -> z -> z **)
+
+  let add x y =
+    match x with
+    | Z0 -> y
+    | Zpos x' ->
+      (match y with
+       | Z0 -> x
+       | Zpos y' -> Zpos (Coq_Pos.add x' y')
+       | Zneg y' -> pos_sub x' y')
+    | Zneg x' ->
+      (match y with
+       | Z0 -> x
+       | Zpos y' -> pos_sub y' x'
+       | Zneg y' -> Zneg (Coq_Pos.add x' y'))
+
+  (** val opp : z -> z **)
+
+  let opp = function
+  | Z0 -> Z0
+  | Zpos x0 -> Zneg x0
+  | Zneg x0 -> Zpos x0
+
+  (** val compare : z -> z -> comparison **)
+
+  let compare x y =
+    match x with
+    | Z0 -> (match y with
+             | Z0 -> Eq
+             | Zpos _ -> Lt
+             | Zneg _ -> Gt)
+    | Zpos x' -> (match y with
+                  | Zpos y' -> Coq_Pos.compare x' y'
+                  | _ -> Gt)
+    | Zneg x' ->
+      (match y with
+       | Zneg y' -> compOpp (Coq_Pos.compare x' y')
+       | _ -> Lt)
+
+  (** val ltb : z -> z -> bool **)
+
+  let ltb x y =
+    match compare x y with
+    | Lt -> true
+    | _ -> false
+
+  (** val to_N : z -> n **)
+
+  let to_N = function
+  | Zpos p -> Npos p
+  | _ -> N0
+
+  (** val of_N : n -> z **)
+
+  let of_N = function
+  | N0 -> Z0
+  | Npos p -> Zpos p
+ end
 
 (** val string_dec : char list -> char list -> bool **)
 
@@ -572,6 +940,12 @@ let rec prefix s1 s2 =
     (match s2 with
      | [] -> false
      | b::s2' -> if (=) a b then prefix s1' s2' else false)
+
+(** val string_of_list_ascii : char list -> char list **)
+
+let rec string_of_list_ascii = function
+| [] -> []
+| ch :: s0 -> ch::(string_of_list_ascii s0)
 
 type kind =
 | KScript
@@ -1871,6 +2245,1486 @@ let to_config_with parse_prologue rnd r =
 
 let to_config rnd r =
   to_config_with (fun _ -> []) rnd r
+
+type pos = n * n
+
+(** val ple : pos -> pos -> bool **)
+
+let ple a b =
+  (||) (N.ltb (fst a) (fst b))
+    ((&&) (N.eqb (fst a) (fst b)) (N.leb (snd a) (snd b)))
+
+(** val plt : pos -> pos -> bool **)
+
+let plt a b =
+  (||) (N.ltb (fst a) (fst b))
+    ((&&) (N.eqb (fst a) (fst b)) (N.ltb (snd a) (snd b)))
+
+type 'a token = pos * 'a
+
+(** val lookup_from :
+    'a1 token option -> 'a1 token list -> pos -> 'a1 token option **)
+
+let rec lookup_from acc1 m p =
+  match m with
+  | [] -> acc1
+  | t :: m' -> lookup_from (if ple (fst t) p then Some t else acc1) m' p
+
+(** val lookup : 'a1 token list -> pos -> 'a1 token option **)
+
+let lookup m p =
+  lookup_from None m p
+
+(** val find_loop : nat -> 'a1 token list -> nat -> nat -> pos -> nat **)
+
+let rec find_loop fuel m first count p =
+  match fuel with
+  | O -> first
+  | S f ->
+    if Nat.leb count (S O)
+    then first
+    else let step = Nat.div2 count in
+         let middle = add first step in
+         (match nth_error m middle with
+          | Some mp ->
+            if plt p (fst mp)
+            then find_loop f m first step p
+            else find_loop f m middle (sub count step) p
+          | None -> first)
+
+(** val find_entry : 'a1 token list -> pos -> 'a1 token option **)
+
+let find_entry m p =
+  let first = find_loop (length m) m O (length m) p in
+  (match nth_error m first with
+   | Some e -> if (&&) (Nat.eqb first O) (plt p (fst e)) then None else Some e
+   | None -> None)
+
+(** val chain : pos token list -> 'a1 token list -> 'a1 token list **)
+
+let chain m1 m2 =
+  flat_map (fun t ->
+    match lookup m2 (snd t) with
+    | Some o -> ((fst t), (snd o)) :: []
+    | None -> []) m1
+
+(** val b64_alphabet : char list **)
+
+let b64_alphabet =
+  'A'::('B'::('C'::('D'::('E'::('F'::('G'::('H'::('I'::('J'::('K'::('L'::('M'::('N'::('O'::('P'::('Q'::('R'::('S'::('T'::('U'::('V'::('W'::('X'::('Y'::('Z'::('a'::('b'::('c'::('d'::('e'::('f'::('g'::('h'::('i'::('j'::('k'::('l'::('m'::('n'::('o'::('p'::('q'::('r'::('s'::('t'::('u'::('v'::('w'::('x'::('y'::('z'::('0'::('1'::('2'::('3'::('4'::('5'::('6'::('7'::('8'::('9'::('+'::('/'::[])))))))))))))))))))))))))))))))))))))))))))))))))))))))))))))))
+
+(** val index_of : char -> char list -> n -> n option **)
+
+let rec index_of ch s i =
+  match s with
+  | [] -> None
+  | c::r -> if (=) c ch then Some i else index_of ch r (N.succ i)
+
+(** val b64_digit : char -> n option **)
+
+let b64_digit ch =
+  index_of ch b64_alphabet N0
+
+(** val b64_char : n -> char **)
+
+let b64_char d =
+  match get (N.to_nat d) b64_alphabet with
+  | Some c -> c
+  | None -> 'A'
+
+(** val zigzag : z -> n **)
+
+let zigzag z0 =
+  if Z.ltb z0 Z0
+  then N.succ (N.mul (Npos (XO XH)) (Z.to_N (Z.opp z0)))
+  else N.mul (Npos (XO XH)) (Z.to_N z0)
+
+(** val unzigzag : n -> z **)
+
+let unzigzag n0 =
+  if N.odd n0 then Z.opp (Z.of_N (N.div2 n0)) else Z.of_N (N.div2 n0)
+
+(** val digits : nat -> n -> n list **)
+
+let rec digits fuel n0 =
+  match fuel with
+  | O -> (N.modulo n0 (Npos (XO (XO (XO (XO (XO XH))))))) :: []
+  | S f ->
+    if N.ltb n0 (Npos (XO (XO (XO (XO (XO XH))))))
+    then n0 :: []
+    else (N.add (N.modulo n0 (Npos (XO (XO (XO (XO (XO XH))))))) (Npos (XO
+           (XO (XO (XO (XO XH))))))) :: (digits f
+                                          (N.div n0 (Npos (XO (XO (XO (XO (XO
+                                            XH))))))))
+
+(** val vlq_digits : z -> n list **)
+
+let vlq_digits z0 =
+  let n0 = zigzag z0 in digits (N.size_nat n0) n0
+
+(** val undigits : n list -> (n * n list) option **)
+
+let rec undigits = function
+| [] -> None
+| d :: rest ->
+  if N.ltb d (Npos (XO (XO (XO (XO (XO XH))))))
+  then Some (d, rest)
+  else (match undigits rest with
+        | Some p ->
+          let (hi, rest') = p in
+          Some
+          ((N.add (N.sub d (Npos (XO (XO (XO (XO (XO XH)))))))
+             (N.mul (Npos (XO (XO (XO (XO (XO XH)))))) hi)), rest')
+        | None -> None)
+
+(** val vlq_decode_digits : n list -> (z * n list) option **)
+
+let vlq_decode_digits ds =
+  match undigits ds with
+  | Some p -> let (n0, rest) = p in Some ((unzigzag n0), rest)
+  | None -> None
+
+(** val vlq_encode : z -> char list **)
+
+let vlq_encode z0 =
+  string_of_list_ascii (map b64_char (vlq_digits z0))
+
+(** val b64_prefix : char list -> n list * char list **)
+
+let rec b64_prefix s = match s with
+| [] -> ([], [])
+| c::r ->
+  (match b64_digit c with
+   | Some d -> let (ds, rest) = b64_prefix r in ((d :: ds), rest)
+   | None -> ([], s))
+
+(** val vlq_all : nat -> n list -> z list option **)
+
+let rec vlq_all fuel ds =
+  match fuel with
+  | O -> None
+  | S f ->
+    (match ds with
+     | [] -> Some []
+     | _ :: _ ->
+       (match vlq_decode_digits ds with
+        | Some p ->
+          let (z0, rest) = p in
+          (match vlq_all f rest with
+           | Some zs -> Some (z0 :: zs)
+           | None -> None)
+        | None -> None))
+
+type raw_token = { rt_gl : n; rt_gc : z; rt_src : ((z * z) * z) option;
+                   rt_name : z option }
+
+type dstate = { d_line : n; d_col : z; d_src : z; d_sl : z; d_sc : z;
+                d_name : z }
+
+(** val decode_mappings_from :
+    nat -> char list -> dstate -> raw_token list option **)
+
+let rec decode_mappings_from fuel s st =
+  match fuel with
+  | O -> None
+  | S f ->
+    (match s with
+     | [] -> Some []
+     | a::r ->
+       (* If this appears, you're using Ascii internals. Please don't *)
+ (fun f c ->
+  let n = Char.code c in
+  let h i = (n land (1 lsl i)) <> 0 in
+  f (h 0) (h 1) (h 2) (h 3) (h 4) (h 5) (h 6) (h 7))
+         (fun b b0 b1 b2 b3 b4 b5 b6 ->
+         if b
+         then if b0
+              then if b1
+                   then let (ds, rest) = b64_prefix s in
+                        (match vlq_all (S (length ds)) ds with
+                         | Some l ->
+                           (match l with
+                            | [] -> None
+                            | c :: l0 ->
+                              (match l0 with
+                               | [] ->
+                                 let st' = { d_line = st.d_line; d_col =
+                                   (Z.add st.d_col c); d_src = st.d_src;
+                                   d_sl = st.d_sl; d_sc = st.d_sc; d_name =
+                                   st.d_name }
+                                 in
+                                 (match decode_mappings_from f rest st' with
+                                  | Some ts ->
+                                    Some ({ rt_gl = st'.d_line; rt_gc =
+                                      st'.d_col; rt_src = None; rt_name =
+                                      None } :: ts)
+                                  | None -> None)
+                               | si :: l1 ->
+                                 (match l1 with
+                                  | [] -> None
+                                  | sl :: l2 ->
+                                    (match l2 with
+                                     | [] -> None
+                                     | sc :: l3 ->
+                                       (match l3 with
+                                        | [] ->
+                                          let st' = { d_line = st.d_line;
+                                            d_col = (Z.add st.d_col c);
+                                            d_src = (Z.add st.d_src si);
+                                            d_sl = (Z.add st.d_sl sl); d_sc =
+                                            (Z.add st.d_sc sc); d_name =
+                                            st.d_name }
+                                          in
+                                          (match decode_mappings_from f rest
+                                                   st' with
+                                           | Some ts ->
+                                             Some ({ rt_gl = st'.d_line;
+                                               rt_gc = st'.d_col; rt_src =
+                                               (Some ((st'.d_src, st'.d_sl),
+                                               st'.d_sc)); rt_name =
+                                               None } :: ts)
+                                           | None -> None)
+                                        | ni :: l4 ->
+                                          (match l4 with
+                                           | [] ->
+                                             let st' = { d_line = st.d_line;
+                                               d_col = (Z.add st.d_col c);
+                                               d_src = (Z.add st.d_src si);
+                                               d_sl = (Z.add st.d_sl sl);
+                                               d_sc = (Z.add st.d_sc sc);
+                                               d_name = (Z.add st.d_name ni) }
+                                             in
+                                             (match decode_mappings_from f
+                                                      rest st' with
+                                              | Some ts ->
+                                                Some ({ rt_gl = st'.d_line;
+                                                  rt_gc = st'.d_col; rt_src =
+                                                  (Some ((st'.d_src,
+                                                  st'.d_sl), st'.d_sc));
+                                                  rt_name = (Some
+                                                  st'.d_name) } :: ts)
+                                              | None -> None)
+                                           | _ :: _ -> None))))))
+                         | None -> None)
+                   else if b2
+                        then if b3
+                             then if b4
+                                  then if b5
+                                       then let (ds, rest) = b64_prefix s in
+                                            (match vlq_all (S (length ds)) ds with
+                                             | Some l ->
+                                               (match l with
+                                                | [] -> None
+                                                | c :: l0 ->
+                                                  (match l0 with
+                                                   | [] ->
+                                                     let st' = { d_line =
+                                                       st.d_line; d_col =
+                                                       (Z.add st.d_col c);
+                                                       d_src = st.d_src;
+                                                       d_sl = st.d_sl; d_sc =
+                                                       st.d_sc; d_name =
+                                                       st.d_name }
+                                                     in
+                                                     (match decode_mappings_from
+                                                              f rest st' with
+                                                      | Some ts ->
+                                                        Some ({ rt_gl =
+                                                          st'.d_line; rt_gc =
+                                                          st'.d_col; rt_src =
+                                                          None; rt_name =
+                                                          None } :: ts)
+                                                      | None -> None)
+                                                   | si :: l1 ->
+                                                     (match l1 with
+                                                      | [] -> None
+                                                      | sl :: l2 ->
+                                                        (match l2 with
+                                                         | [] -> None
+                                                         | sc :: l3 ->
+                                                           (match l3 with
+                                                            | [] ->
+                                                              let st' =
+                                                                { d_line =
+                                                                st.d_line;
+                                                                d_col =
+                                                                (Z.add
+                                                                  st.d_col c);
+                                                                d_src =
+                                                                (Z.add
+                                                                  st.d_src si);
+                                                                d_sl =
+                                                                (Z.add
+                                                                  st.d_sl sl);
+                                                                d_sc =
+                                                                (Z.add
+                                                                  st.d_sc sc);
+                                                                d_name =
+                                                                st.d_name }
+                                                              in
+                                                              (match 
+                                                               decode_mappings_from
+                                                                 f rest st' with
+                                                               | Some ts ->
+                                                                 Some
+                                                                   ({ rt_gl =
+                                                                   st'.d_line;
+                                                                   rt_gc =
+                                                                   st'.d_col;
+                                                                   rt_src =
+                                                                   (Some
+                                                                   ((st'.d_src,
+                                                                   st'.d_sl),
+                                                                   st'.d_sc));
+                                                                   rt_name =
+                                                                   None } :: ts)
+                                                               | None -> None)
+                                                            | ni :: l4 ->
+                                                              (match l4 with
+                                                               | [] ->
+                                                                 let st' =
+                                                                   { d_line =
+                                                                   st.d_line;
+                                                                   d_col =
+                                                                   (Z.add
+                                                                    st.d_col
+                                                                    c);
+                                                                   d_src =
+                                                                   (Z.add
+                                                                    st.d_src
+                                                                    si);
+                                                                   d_sl =
+                                                                   (Z.add
+                                                                    st.d_sl
+                                                                    sl);
+                                                                   d_sc =
+                                                                   (Z.add
+                                                                    st.d_sc
+                                                                    sc);
+                                                                   d_name =
+                                                                   (Z.add
+                                                                    st.d_name
+                                                                    ni) }
+                                                                 in
+                                                                 (match 
+                                                                  decode_mappings_from
+                                                                    f rest st' with
+                                                                  | Some ts ->
+                                                                    Some
+                                                                    ({ rt_gl =
+                                                                    st'.d_line;
+                                                                    rt_gc =
+                                                                    st'.d_col;
+                                                                    rt_src =
+                                                                    (Some
+                                                                    ((st'.d_src,
+                                                                    st'.d_sl),
+                                                                    st'.d_sc));
+                                                                    rt_name =
+                                                                    (Some
+                                                                    st'.d_name) } :: ts)
+                                                                  | None ->
+                                                                    None)
+                                                               | _ :: _ ->
+                                                                 None))))))
+                                             | None -> None)
+                                       else if b6
+                                            then let (ds, rest) = b64_prefix s
+                                                 in
+                                                 (match vlq_all (S
+                                                          (length ds)) ds with
+                                                  | Some l ->
+                                                    (match l with
+                                                     | [] -> None
+                                                     | c :: l0 ->
+                                                       (match l0 with
+                                                        | [] ->
+                                                          let st' =
+                                                            { d_line =
+                                                            st.d_line;
+                                                            d_col =
+                                                            (Z.add st.d_col c);
+                                                            d_src = st.d_src;
+                                                            d_sl = st.d_sl;
+                                                            d_sc = st.d_sc;
+                                                            d_name =
+                                                            st.d_name }
+                                                          in
+                                                          (match decode_mappings_from
+                                                                   f rest st' with
+                                                           | Some ts ->
+                                                             Some ({ rt_gl =
+                                                               st'.d_line;
+                                                               rt_gc =
+                                                               st'.d_col;
+                                                               rt_src = None;
+                                                               rt_name =
+                                                               None } :: ts)
+                                                           | None -> None)
+                                                        | si :: l1 ->
+                                                          (match l1 with
+                                                           | [] -> None
+                                                           | sl :: l2 ->
+                                                             (match l2 with
+                                                              | [] -> None
+                                                              | sc :: l3 ->
+                                                                (match l3 with
+                                                                 | [] ->
+                                                                   let st' =
+                                                                    { d_line =
+                                                                    st.d_line;
+                                                                    d_col =
+                                                                    (Z.add
+                                                                    st.d_col
+                                                                    c);
+                                                                    d_src =
+                                                                    (Z.add
+                                                                    st.d_src
+                                                                    si);
+                                                                    d_sl =
+                                                                    (Z.add
+                                                                    st.d_sl
+                                                                    sl);
+                                                                    d_sc =
+                                                                    (Z.add
+                                                                    st.d_sc
+                                                                    sc);
+                                                                    d_name =
+                                                                    st.d_name }
+                                                                   in
+                                                                   (match 
+                                                                    decode_mappings_from
+                                                                    f rest st' with
+                                                                    | Some ts ->
+                                                                    Some
+                                                                    ({ rt_gl =
+                                                                    st'.d_line;
+                                                                    rt_gc =
+                                                                    st'.d_col;
+                                                                    rt_src =
+                                                                    (Some
+                                                                    ((st'.d_src,
+                                                                    st'.d_sl),
+                                                                    st'.d_sc));
+                                                                    rt_name =
+                                                                    None } :: ts)
+                                                                    | None ->
+                                                                    None)
+                                                                 | ni :: l4 ->
+                                                                   (match l4 with
+                                                                    | [] ->
+                                                                    let st' =
+                                                                    { d_line =
+                                                                    st.d_line;
+                                                                    d_col =
+                                                                    (Z.add
+                                                                    st.d_col
+                                                                    c);
+                                                                    d_src =
+                                                                    (Z.add
+                                                                    st.d_src
+                                                                    si);
+                                                                    d_sl =
+                                                                    (Z.add
+                                                                    st.d_sl
+                                                                    sl);
+                                                                    d_sc =
+                                                                    (Z.add
+                                                                    st.d_sc
+                                                                    sc);
+                                                                    d_name =
+                                                                    (Z.add
+                                                                    st.d_name
+                                                                    ni) }
+                                                                    in
+                                                                    (
+                                                                    match 
+                                                                    decode_mappings_from
+                                                                    f rest st' with
+                                                                    | Some ts ->
+                                                                    Some
+                                                                    ({ rt_gl =
+                                                                    st'.d_line;
+                                                                    rt_gc =
+                                                                    st'.d_col;
+                                                                    rt_src =
+                                                                    (Some
+                                                                    ((st'.d_src,
+                                                                    st'.d_sl),
+                                                                    st'.d_sc));
+                                                                    rt_name =
+                                                                    (Some
+                                                                    st'.d_name) } :: ts)
+                                                                    | None ->
+                                                                    None)
+                                                                    | _ :: _ ->
+                                                                    None))))))
+                                                  | None -> None)
+                                            else decode_mappings_from f r
+                                                   { d_line =
+                                                   (N.succ st.d_line);
+                                                   d_col = Z0; d_src =
+                                                   st.d_src; d_sl = st.d_sl;
+                                                   d_sc = st.d_sc; d_name =
+                                                   st.d_name }
+                                  else let (ds, rest) = b64_prefix s in
+                                       (match vlq_all (S (length ds)) ds with
+                                        | Some l ->
+                                          (match l with
+                                           | [] -> None
+                                           | c :: l0 ->
+                                             (match l0 with
+                                              | [] ->
+                                                let st' = { d_line =
+                                                  st.d_line; d_col =
+                                                  (Z.add st.d_col c); d_src =
+                                                  st.d_src; d_sl = st.d_sl;
+                                                  d_sc = st.d_sc; d_name =
+                                                  st.d_name }
+                                                in
+                                                (match decode_mappings_from f
+                                                         rest st' with
+                                                 | Some ts ->
+                                                   Some ({ rt_gl =
+                                                     st'.d_line; rt_gc =
+                                                     st'.d_col; rt_src =
+                                                     None; rt_name =
+                                                     None } :: ts)
+                                                 | None -> None)
+                                              | si :: l1 ->
+                                                (match l1 with
+                                                 | [] -> None
+                                                 | sl :: l2 ->
+                                                   (match l2 with
+                                                    | [] -> None
+                                                    | sc :: l3 ->
+                                                      (match l3 with
+                                                       | [] ->
+                                                         let st' = { d_line =
+                                                           st.d_line; d_col =
+                                                           (Z.add st.d_col c);
+                                                           d_src =
+                                                           (Z.add st.d_src si);
+                                                           d_sl =
+                                                           (Z.add st.d_sl sl);
+                                                           d_sc =
+                                                           (Z.add st.d_sc sc);
+                                                           d_name =
+                                                           st.d_name }
+                                                         in
+                                                         (match decode_mappings_from
+                                                                  f rest st' with
+                                                          | Some ts ->
+                                                            Some ({ rt_gl =
+                                                              st'.d_line;
+                                                              rt_gc =
+                                                              st'.d_col;
+                                                              rt_src = (Some
+                                                              ((st'.d_src,
+                                                              st'.d_sl),
+                                                              st'.d_sc));
+                                                              rt_name =
+                                                              None } :: ts)
+                                                          | None -> None)
+                                                       | ni :: l4 ->
+                                                         (match l4 with
+                                                          | [] ->
+                                                            let st' =
+                                                              { d_line =
+                                                              st.d_line;
+                                                              d_col =
+                                                              (Z.add st.d_col
+                                                                c); d_src =
+                                                              (Z.add st.d_src
+                                                                si); d_sl =
+                                                              (Z.add st.d_sl
+                                                                sl); d_sc =
+                                                              (Z.add st.d_sc
+                                                                sc); d_name =
+                                                              (Z.add
+                                                                st.d_name ni) }
+                                                            in
+                                                            (match decode_mappings_from
+                                                                    f rest st' with
+                                                             | Some ts ->
+                                                               Some
+                                                                 ({ rt_gl =
+                                                                 st'.d_line;
+                                                                 rt_gc =
+                                                                 st'.d_col;
+                                                                 rt_src =
+                                                                 (Some
+                                                                 ((st'.d_src,
+                                                                 st'.d_sl),
+                                                                 st'.d_sc));
+                                                                 rt_name =
+                                                                 (Some
+                                                                 st'.d_name) } :: ts)
+                                                             | None -> None)
+                                                          | _ :: _ -> None))))))
+                                        | None -> None)
+                             else let (ds, rest) = b64_prefix s in
+                                  (match vlq_all (S (length ds)) ds with
+                                   | Some l ->
+                                     (match l with
+                                      | [] -> None
+                                      | c :: l0 ->
+                                        (match l0 with
+                                         | [] ->
+                                           let st' = { d_line = st.d_line;
+                                             d_col = (Z.add st.d_col c);
+                                             d_src = st.d_src; d_sl =
+                                             st.d_sl; d_sc = st.d_sc;
+                                             d_name = st.d_name }
+                                           in
+                                           (match decode_mappings_from f rest
+                                                    st' with
+                                            | Some ts ->
+                                              Some ({ rt_gl = st'.d_line;
+                                                rt_gc = st'.d_col; rt_src =
+                                                None; rt_name = None } :: ts)
+                                            | None -> None)
+                                         | si :: l1 ->
+                                           (match l1 with
+                                            | [] -> None
+                                            | sl :: l2 ->
+                                              (match l2 with
+                                               | [] -> None
+                                               | sc :: l3 ->
+                                                 (match l3 with
+                                                  | [] ->
+                                                    let st' = { d_line =
+                                                      st.d_line; d_col =
+                                                      (Z.add st.d_col c);
+                                                      d_src =
+                                                      (Z.add st.d_src si);
+                                                      d_sl =
+                                                      (Z.add st.d_sl sl);
+                                                      d_sc =
+                                                      (Z.add st.d_sc sc);
+                                                      d_name = st.d_name }
+                                                    in
+                                                    (match decode_mappings_from
+                                                             f rest st' with
+                                                     | Some ts ->
+                                                       Some ({ rt_gl =
+                                                         st'.d_line; rt_gc =
+                                                         st'.d_col; rt_src =
+                                                         (Some ((st'.d_src,
+                                                         st'.d_sl),
+                                                         st'.d_sc));
+                                                         rt_name =
+                                                         None } :: ts)
+                                                     | None -> None)
+                                                  | ni :: l4 ->
+                                                    (match l4 with
+                                                     | [] ->
+                                                       let st' = { d_line =
+                                                         st.d_line; d_col =
+                                                         (Z.add st.d_col c);
+                                                         d_src =
+                                                         (Z.add st.d_src si);
+                                                         d_sl =
+                                                         (Z.add st.d_sl sl);
+                                                         d_sc =
+                                                         (Z.add st.d_sc sc);
+                                                         d_name =
+                                                         (Z.add st.d_name ni) }
+                                                       in
+                                                       (match decode_mappings_from
+                                                                f rest st' with
+                                                        | Some ts ->
+                                                          Some ({ rt_gl =
+                                                            st'.d_line;
+                                                            rt_gc =
+                                                            st'.d_col;
+                                                            rt_src = (Some
+                                                            ((st'.d_src,
+                                                            st'.d_sl),
+                                                            st'.d_sc));
+                                                            rt_name = (Some
+                                                            st'.d_name) } :: ts)
+                                                        | None -> None)
+                                                     | _ :: _ -> None))))))
+                                   | None -> None)
+                        else let (ds, rest) = b64_prefix s in
+                             (match vlq_all (S (length ds)) ds with
+                              | Some l ->
+                                (match l with
+                                 | [] -> None
+                                 | c :: l0 ->
+                                   (match l0 with
+                                    | [] ->
+                                      let st' = { d_line = st.d_line; d_col =
+                                        (Z.add st.d_col c); d_src = st.d_src;
+                                        d_sl = st.d_sl; d_sc = st.d_sc;
+                                        d_name = st.d_name }
+                                      in
+                                      (match decode_mappings_from f rest st' with
+                                       | Some ts ->
+                                         Some ({ rt_gl = st'.d_line; rt_gc =
+                                           st'.d_col; rt_src = None;
+                                           rt_name = None } :: ts)
+                                       | None -> None)
+                                    | si :: l1 ->
+                                      (match l1 with
+                                       | [] -> None
+                                       | sl :: l2 ->
+                                         (match l2 with
+                                          | [] -> None
+                                          | sc :: l3 ->
+                                            (match l3 with
+                                             | [] ->
+                                               let st' = { d_line =
+                                                 st.d_line; d_col =
+                                                 (Z.add st.d_col c); d_src =
+                                                 (Z.add st.d_src si); d_sl =
+                                                 (Z.add st.d_sl sl); d_sc =
+                                                 (Z.add st.d_sc sc); d_name =
+                                                 st.d_name }
+                                               in
+                                               (match decode_mappings_from f
+                                                        rest st' with
+                                                | Some ts ->
+                                                  Some ({ rt_gl = st'.d_line;
+                                                    rt_gc = st'.d_col;
+                                                    rt_src = (Some
+                                                    ((st'.d_src, st'.d_sl),
+                                                    st'.d_sc)); rt_name =
+                                                    None } :: ts)
+                                                | None -> None)
+                                             | ni :: l4 ->
+                                               (match l4 with
+                                                | [] ->
+                                                  let st' = { d_line =
+                                                    st.d_line; d_col =
+                                                    (Z.add st.d_col c);
+                                                    d_src =
+                                                    (Z.add st.d_src si);
+                                                    d_sl =
+                                                    (Z.add st.d_sl sl);
+                                                    d_sc =
+                                                    (Z.add st.d_sc sc);
+                                                    d_name =
+                                                    (Z.add st.d_name ni) }
+                                                  in
+                                                  (match decode_mappings_from
+                                                           f rest st' with
+                                                   | Some ts ->
+                                                     Some ({ rt_gl =
+                                                       st'.d_line; rt_gc =
+                                                       st'.d_col; rt_src =
+                                                       (Some ((st'.d_src,
+                                                       st'.d_sl), st'.d_sc));
+                                                       rt_name = (Some
+                                                       st'.d_name) } :: ts)
+                                                   | None -> None)
+                                                | _ :: _ -> None))))))
+                              | None -> None)
+              else let (ds, rest) = b64_prefix s in
+                   (match vlq_all (S (length ds)) ds with
+                    | Some l ->
+                      (match l with
+                       | [] -> None
+                       | c :: l0 ->
+                         (match l0 with
+                          | [] ->
+                            let st' = { d_line = st.d_line; d_col =
+                              (Z.add st.d_col c); d_src = st.d_src; d_sl =
+                              st.d_sl; d_sc = st.d_sc; d_name = st.d_name }
+                            in
+                            (match decode_mappings_from f rest st' with
+                             | Some ts ->
+                               Some ({ rt_gl = st'.d_line; rt_gc = st'.d_col;
+                                 rt_src = None; rt_name = None } :: ts)
+                             | None -> None)
+                          | si :: l1 ->
+                            (match l1 with
+                             | [] -> None
+                             | sl :: l2 ->
+                               (match l2 with
+                                | [] -> None
+                                | sc :: l3 ->
+                                  (match l3 with
+                                   | [] ->
+                                     let st' = { d_line = st.d_line; d_col =
+                                       (Z.add st.d_col c); d_src =
+                                       (Z.add st.d_src si); d_sl =
+                                       (Z.add st.d_sl sl); d_sc =
+                                       (Z.add st.d_sc sc); d_name =
+                                       st.d_name }
+                                     in
+                                     (match decode_mappings_from f rest st' with
+                                      | Some ts ->
+                                        Some ({ rt_gl = st'.d_line; rt_gc =
+                                          st'.d_col; rt_src = (Some
+                                          ((st'.d_src, st'.d_sl), st'.d_sc));
+                                          rt_name = None } :: ts)
+                                      | None -> None)
+                                   | ni :: l4 ->
+                                     (match l4 with
+                                      | [] ->
+                                        let st' = { d_line = st.d_line;
+                                          d_col = (Z.add st.d_col c); d_src =
+                                          (Z.add st.d_src si); d_sl =
+                                          (Z.add st.d_sl sl); d_sc =
+                                          (Z.add st.d_sc sc); d_name =
+                                          (Z.add st.d_name ni) }
+                                        in
+                                        (match decode_mappings_from f rest st' with
+                                         | Some ts ->
+                                           Some ({ rt_gl = st'.d_line;
+                                             rt_gc = st'.d_col; rt_src =
+                                             (Some ((st'.d_src, st'.d_sl),
+                                             st'.d_sc)); rt_name = (Some
+                                             st'.d_name) } :: ts)
+                                         | None -> None)
+                                      | _ :: _ -> None))))))
+                    | None -> None)
+         else if b0
+              then let (ds, rest) = b64_prefix s in
+                   (match vlq_all (S (length ds)) ds with
+                    | Some l ->
+                      (match l with
+                       | [] -> None
+                       | c :: l0 ->
+                         (match l0 with
+                          | [] ->
+                            let st' = { d_line = st.d_line; d_col =
+                              (Z.add st.d_col c); d_src = st.d_src; d_sl =
+                              st.d_sl; d_sc = st.d_sc; d_name = st.d_name }
+                            in
+                            (match decode_mappings_from f rest st' with
+                             | Some ts ->
+                               Some ({ rt_gl = st'.d_line; rt_gc = st'.d_col;
+                                 rt_src = None; rt_name = None } :: ts)
+                             | None -> None)
+                          | si :: l1 ->
+                            (match l1 with
+                             | [] -> None
+                             | sl :: l2 ->
+                               (match l2 with
+                                | [] -> None
+                                | sc :: l3 ->
+                                  (match l3 with
+                                   | [] ->
+                                     let st' = { d_line = st.d_line; d_col =
+                                       (Z.add st.d_col c); d_src =
+                                       (Z.add st.d_src si); d_sl =
+                                       (Z.add st.d_sl sl); d_sc =
+                                       (Z.add st.d_sc sc); d_name =
+                                       st.d_name }
+                                     in
+                                     (match decode_mappings_from f rest st' with
+                                      | Some ts ->
+                                        Some ({ rt_gl = st'.d_line; rt_gc =
+                                          st'.d_col; rt_src = (Some
+                                          ((st'.d_src, st'.d_sl), st'.d_sc));
+                                          rt_name = None } :: ts)
+                                      | None -> None)
+                                   | ni :: l4 ->
+                                     (match l4 with
+                                      | [] ->
+                                        let st' = { d_line = st.d_line;
+                                          d_col = (Z.add st.d_col c); d_src =
+                                          (Z.add st.d_src si); d_sl =
+                                          (Z.add st.d_sl sl); d_sc =
+                                          (Z.add st.d_sc sc); d_name =
+                                          (Z.add st.d_name ni) }
+                                        in
+                                        (match decode_mappings_from f rest st' with
+                                         | Some ts ->
+                                           Some ({ rt_gl = st'.d_line;
+                                             rt_gc = st'.d_col; rt_src =
+                                             (Some ((st'.d_src, st'.d_sl),
+                                             st'.d_sc)); rt_name = (Some
+                                             st'.d_name) } :: ts)
+                                         | None -> None)
+                                      | _ :: _ -> None))))))
+                    | None -> None)
+              else if b1
+                   then if b2
+                        then if b3
+                             then let (ds, rest) = b64_prefix s in
+                                  (match vlq_all (S (length ds)) ds with
+                                   | Some l ->
+                                     (match l with
+                                      | [] -> None
+                                      | c :: l0 ->
+                                        (match l0 with
+                                         | [] ->
+                                           let st' = { d_line = st.d_line;
+                                             d_col = (Z.add st.d_col c);
+                                             d_src = st.d_src; d_sl =
+                                             st.d_sl; d_sc = st.d_sc;
+                                             d_name = st.d_name }
+                                           in
+                                           (match decode_mappings_from f rest
+                                                    st' with
+                                            | Some ts ->
+                                              Some ({ rt_gl = st'.d_line;
+                                                rt_gc = st'.d_col; rt_src =
+                                                None; rt_name = None } :: ts)
+                                            | None -> None)
+                                         | si :: l1 ->
+                                           (match l1 with
+                                            | [] -> None
+                                            | sl :: l2 ->
+                                              (match l2 with
+                                               | [] -> None
+                                               | sc :: l3 ->
+                                                 (match l3 with
+                                                  | [] ->
+                                                    let st' = { d_line =
+                                                      st.d_line; d_col =
+                                                      (Z.add st.d_col c);
+                                                      d_src =
+                                                      (Z.add st.d_src si);
+                                                      d_sl =
+                                                      (Z.add st.d_sl sl);
+                                                      d_sc =
+                                                      (Z.add st.d_sc sc);
+                                                      d_name = st.d_name }
+                                                    in
+                                                    (match decode_mappings_from
+                                                             f rest st' with
+                                                     | Some ts ->
+                                                       Some ({ rt_gl =
+                                                         st'.d_line; rt_gc =
+                                                         st'.d_col; rt_src =
+                                                         (Some ((st'.d_src,
+                                                         st'.d_sl),
+                                                         st'.d_sc));
+                                                         rt_name =
+                                                         None } :: ts)
+                                                     | None -> None)
+                                                  | ni :: l4 ->
+                                                    (match l4 with
+                                                     | [] ->
+                                                       let st' = { d_line =
+                                                         st.d_line; d_col =
+                                                         (Z.add st.d_col c);
+                                                         d_src =
+                                                         (Z.add st.d_src si);
+                                                         d_sl =
+                                                         (Z.add st.d_sl sl);
+                                                         d_sc =
+                                                         (Z.add st.d_sc sc);
+                                                         d_name =
+                                                         (Z.add st.d_name ni) }
+                                                       in
+                                                       (match decode_mappings_from
+                                                                f rest st' with
+                                                        | Some ts ->
+                                                          Some ({ rt_gl =
+                                                            st'.d_line;
+                                                            rt_gc =
+                                                            st'.d_col;
+                                                            rt_src = (Some
+                                                            ((st'.d_src,
+                                                            st'.d_sl),
+                                                            st'.d_sc));
+                                                            rt_name = (Some
+                                                            st'.d_name) } :: ts)
+                                                        | None -> None)
+                                                     | _ :: _ -> None))))))
+                                   | None -> None)
+                             else if b4
+                                  then if b5
+                                       then let (ds, rest) = b64_prefix s in
+                                            (match vlq_all (S (length ds)) ds with
+                                             | Some l ->
+                                               (match l with
+                                                | [] -> None
+                                                | c :: l0 ->
+                                                  (match l0 with
+                                                   | [] ->
+                                                     let st' = { d_line =
+                                                       st.d_line; d_col =
+                                                       (Z.add st.d_col c);
+                                                       d_src = st.d_src;
+                                                       d_sl = st.d_sl; d_sc =
+                                                       st.d_sc; d_name =
+                                                       st.d_name }
+                                                     in
+                                                     (match decode_mappings_from
+                                                              f rest st' with
+                                                      | Some ts ->
+                                                        Some ({ rt_gl =
+                                                          st'.d_line; rt_gc =
+                                                          st'.d_col; rt_src =
+                                                          None; rt_name =
+                                                          None } :: ts)
+                                                      | None -> None)
+                                                   | si :: l1 ->
+                                                     (match l1 with
+                                                      | [] -> None
+                                                      | sl :: l2 ->
+                                                        (match l2 with
+                                                         | [] -> None
+                                                         | sc :: l3 ->
+                                                           (match l3 with
+                                                            | [] ->
+                                                              let st' =
+                                                                { d_line =
+                                                                st.d_line;
+                                                                d_col =
+                                                                (Z.add
+                                                                  st.d_col c);
+                                                                d_src =
+                                                                (Z.add
+                                                                  st.d_src si);
+                                                                d_sl =
+                                                                (Z.add
+                                                                  st.d_sl sl);
+                                                                d_sc =
+                                                                (Z.add
+                                                                  st.d_sc sc);
+                                                                d_name =
+                                                                st.d_name }
+                                                              in
+                                                              (match 
+                                                               decode_mappings_from
+                                                                 f rest st' with
+                                                               | Some ts ->
+                                                                 Some
+                                                                   ({ rt_gl =
+                                                                   st'.d_line;
+                                                                   rt_gc =
+                                                                   st'.d_col;
+                                                                   rt_src =
+                                                                   (Some
+                                                                   ((st'.d_src,
+                                                                   st'.d_sl),
+                                                                   st'.d_sc));
+                                                                   rt_name =
+                                                                   None } :: ts)
+                                                               | None -> None)
+                                                            | ni :: l4 ->
+                                                              (match l4 with
+                                                               | [] ->
+                                                                 let st' =
+                                                                   { d_line =
+                                                                   st.d_line;
+                                                                   d_col =
+                                                                   (Z.add
+                                                                    st.d_col
+                                                                    c);
+                                                                   d_src =
+                                                                   (Z.add
+                                                                    st.d_src
+                                                                    si);
+                                                                   d_sl =
+                                                                   (Z.add
+                                                                    st.d_sl
+                                                                    sl);
+                                                                   d_sc =
+                                                                   (Z.add
+                                                                    st.d_sc
+                                                                    sc);
+                                                                   d_name =
+                                                                   (Z.add
+                                                                    st.d_name
+                                                                    ni) }
+                                                                 in
+                                                                 (match 
+                                                                  decode_mappings_from
+                                                                    f rest st' with
+                                                                  | Some ts ->
+                                                                    Some
+                                                                    ({ rt_gl =
+                                                                    st'.d_line;
+                                                                    rt_gc =
+                                                                    st'.d_col;
+                                                                    rt_src =
+                                                                    (Some
+                                                                    ((st'.d_src,
+                                                                    st'.d_sl),
+                                                                    st'.d_sc));
+                                                                    rt_name =
+                                                                    (Some
+                                                                    st'.d_name) } :: ts)
+                                                                  | None ->
+                                                                    None)
+                                                               | _ :: _ ->
+                                                                 None))))))
+                                             | None -> None)
+                                       else if b6
+                                            then let (ds, rest) = b64_prefix s
+                                                 in
+                                                 (match vlq_all (S
+                                                          (length ds)) ds with
+                                                  | Some l ->
+                                                    (match l with
+                                                     | [] -> None
+                                                     | c :: l0 ->
+                                                       (match l0 with
+                                                        | [] ->
+                                                          let st' =
+                                                            { d_line =
+                                                            st.d_line;
+                                                            d_col =
+                                                            (Z.add st.d_col c);
+                                                            d_src = st.d_src;
+                                                            d_sl = st.d_sl;
+                                                            d_sc = st.d_sc;
+                                                            d_name =
+                                                            st.d_name }
+                                                          in
+                                                          (match decode_mappings_from
+                                                                   f rest st' with
+                                                           | Some ts ->
+                                                             Some ({ rt_gl =
+                                                               st'.d_line;
+                                                               rt_gc =
+                                                               st'.d_col;
+                                                               rt_src = None;
+                                                               rt_name =
+                                                               None } :: ts)
+                                                           | None -> None)
+                                                        | si :: l1 ->
+                                                          (match l1 with
+                                                           | [] -> None
+                                                           | sl :: l2 ->
+                                                             (match l2 with
+                                                              | [] -> None
+                                                              | sc :: l3 ->
+                                                                (match l3 with
+                                                                 | [] ->
+                                                                   let st' =
+                                                                    { d_line =
+                                                                    st.d_line;
+                                                                    d_col =
+                                                                    (Z.add
+                                                                    st.d_col
+                                                                    c);
+                                                                    d_src =
+                                                                    (Z.add
+                                                                    st.d_src
+                                                                    si);
+                                                                    d_sl =
+                                                                    (Z.add
+                                                                    st.d_sl
+                                                                    sl);
+                                                                    d_sc =
+                                                                    (Z.add
+                                                                    st.d_sc
+                                                                    sc);
+                                                                    d_name =
+                                                                    st.d_name }
+                                                                   in
+                                                                   (match 
+                                                                    decode_mappings_from
+                                                                    f rest st' with
+                                                                    | Some ts ->
+                                                                    Some
+                                                                    ({ rt_gl =
+                                                                    st'.d_line;
+                                                                    rt_gc =
+                                                                    st'.d_col;
+                                                                    rt_src =
+                                                                    (Some
+                                                                    ((st'.d_src,
+                                                                    st'.d_sl),
+                                                                    st'.d_sc));
+                                                                    rt_name =
+                                                                    None } :: ts)
+                                                                    | None ->
+                                                                    None)
+                                                                 | ni :: l4 ->
+                                                                   (match l4 with
+                                                                    | [] ->
+                                                                    let st' =
+                                                                    { d_line =
+                                                                    st.d_line;
+                                                                    d_col =
+                                                                    (Z.add
+                                                                    st.d_col
+                                                                    c);
+                                                                    d_src =
+                                                                    (Z.add
+                                                                    st.d_src
+                                                                    si);
+                                                                    d_sl =
+                                                                    (Z.add
+                                                                    st.d_sl
+                                                                    sl);
+                                                                    d_sc =
+                                                                    (Z.add
+                                                                    st.d_sc
+                                                                    sc);
+                                                                    d_name =
+                                                                    (Z.add
+                                                                    st.d_name
+                                                                    ni) }
+                                                                    in
+                                                                    (
+                                                                    match 
+                                                                    decode_mappings_from
+                                                                    f rest st' with
+                                                                    | Some ts ->
+                                                                    Some
+                                                                    ({ rt_gl =
+                                                                    st'.d_line;
+                                                                    rt_gc =
+                                                                    st'.d_col;
+                                                                    rt_src =
+                                                                    (Some
+                                                                    ((st'.d_src,
+                                                                    st'.d_sl),
+                                                                    st'.d_sc));
+                                                                    rt_name =
+                                                                    (Some
+                                                                    st'.d_name) } :: ts)
+                                                                    | None ->
+                                                                    None)
+                                                                    | _ :: _ ->
+                                                                    None))))))
+                                                  | None -> None)
+                                            else decode_mappings_from f r st
+                                  else let (ds, rest) = b64_prefix s in
+                                       (match vlq_all (S (length ds)) ds with
+                                        | Some l ->
+                                          (match l with
+                                           | [] -> None
+                                           | c :: l0 ->
+                                             (match l0 with
+                                              | [] ->
+                                                let st' = { d_line =
+                                                  st.d_line; d_col =
+                                                  (Z.add st.d_col c); d_src =
+                                                  st.d_src; d_sl = st.d_sl;
+                                                  d_sc = st.d_sc; d_name =
+                                                  st.d_name }
+                                                in
+                                                (match decode_mappings_from f
+                                                         rest st' with
+                                                 | Some ts ->
+                                                   Some ({ rt_gl =
+                                                     st'.d_line; rt_gc =
+                                                     st'.d_col; rt_src =
+                                                     None; rt_name =
+                                                     None } :: ts)
+                                                 | None -> None)
+                                              | si :: l1 ->
+                                                (match l1 with
+                                                 | [] -> None
+                                                 | sl :: l2 ->
+                                                   (match l2 with
+                                                    | [] -> None
+                                                    | sc :: l3 ->
+                                                      (match l3 with
+                                                       | [] ->
+                                                         let st' = { d_line =
+                                                           st.d_line; d_col =
+                                                           (Z.add st.d_col c);
+                                                           d_src =
+                                                           (Z.add st.d_src si);
+                                                           d_sl =
+                                                           (Z.add st.d_sl sl);
+                                                           d_sc =
+                                                           (Z.add st.d_sc sc);
+                                                           d_name =
+                                                           st.d_name }
+                                                         in
+                                                         (match decode_mappings_from
+                                                                  f rest st' with
+                                                          | Some ts ->
+                                                            Some ({ rt_gl =
+                                                              st'.d_line;
+                                                              rt_gc =
+                                                              st'.d_col;
+                                                              rt_src = (Some
+                                                              ((st'.d_src,
+                                                              st'.d_sl),
+                                                              st'.d_sc));
+                                                              rt_name =
+                                                              None } :: ts)
+                                                          | None -> None)
+                                                       | ni :: l4 ->
+                                                         (match l4 with
+                                                          | [] ->
+                                                            let st' =
+                                                              { d_line =
+                                                              st.d_line;
+                                                              d_col =
+                                                              (Z.add st.d_col
+                                                                c); d_src =
+                                                              (Z.add st.d_src
+                                                                si); d_sl =
+                                                              (Z.add st.d_sl
+                                                                sl); d_sc =
+                                                              (Z.add st.d_sc
+                                                                sc); d_name =
+                                                              (Z.add
+                                                                st.d_name ni) }
+                                                            in
+                                                            (match decode_mappings_from
+                                                                    f rest st' with
+                                                             | Some ts ->
+                                                               Some
+                                                                 ({ rt_gl =
+                                                                 st'.d_line;
+                                                                 rt_gc =
+                                                                 st'.d_col;
+                                                                 rt_src =
+                                                                 (Some
+                                                                 ((st'.d_src,
+                                                                 st'.d_sl),
+                                                                 st'.d_sc));
+                                                                 rt_name =
+                                                                 (Some
+                                                                 st'.d_name) } :: ts)
+                                                             | None -> None)
+                                                          | _ :: _ -> None))))))
+                                        | None -> None)
+                        else let (ds, rest) = b64_prefix s in
+                             (match vlq_all (S (length ds)) ds with
+                              | Some l ->
+                                (match l with
+                                 | [] -> None
+                                 | c :: l0 ->
+                                   (match l0 with
+                                    | [] ->
+                                      let st' = { d_line = st.d_line; d_col =
+                                        (Z.add st.d_col c); d_src = st.d_src;
+                                        d_sl = st.d_sl; d_sc = st.d_sc;
+                                        d_name = st.d_name }
+                                      in
+                                      (match decode_mappings_from f rest st' with
+                                       | Some ts ->
+                                         Some ({ rt_gl = st'.d_line; rt_gc =
+                                           st'.d_col; rt_src = None;
+                                           rt_name = None } :: ts)
+                                       | None -> None)
+                                    | si :: l1 ->
+                                      (match l1 with
+                                       | [] -> None
+                                       | sl :: l2 ->
+                                         (match l2 with
+                                          | [] -> None
+                                          | sc :: l3 ->
+                                            (match l3 with
+                                             | [] ->
+                                               let st' = { d_line =
+                                                 st.d_line; d_col =
+                                                 (Z.add st.d_col c); d_src =
+                                                 (Z.add st.d_src si); d_sl =
+                                                 (Z.add st.d_sl sl); d_sc =
+                                                 (Z.add st.d_sc sc); d_name =
+                                                 st.d_name }
+                                               in
+                                               (match decode_mappings_from f
+                                                        rest st' with
+                                                | Some ts ->
+                                                  Some ({ rt_gl = st'.d_line;
+                                                    rt_gc = st'.d_col;
+                                                    rt_src = (Some
+                                                    ((st'.d_src, st'.d_sl),
+                                                    st'.d_sc)); rt_name =
+                                                    None } :: ts)
+                                                | None -> None)
+                                             | ni :: l4 ->
+                                               (match l4 with
+                                                | [] ->
+                                                  let st' = { d_line =
+                                                    st.d_line; d_col =
+                                                    (Z.add st.d_col c);
+                                                    d_src =
+                                                    (Z.add st.d_src si);
+                                                    d_sl =
+                                                    (Z.add st.d_sl sl);
+                                                    d_sc =
+                                                    (Z.add st.d_sc sc);
+                                                    d_name =
+                                                    (Z.add st.d_name ni) }
+                                                  in
+                                                  (match decode_mappings_from
+                                                           f rest st' with
+                                                   | Some ts ->
+                                                     Some ({ rt_gl =
+                                                       st'.d_line; rt_gc =
+                                                       st'.d_col; rt_src =
+                                                       (Some ((st'.d_src,
+                                                       st'.d_sl), st'.d_sc));
+                                                       rt_name = (Some
+                                                       st'.d_name) } :: ts)
+                                                   | None -> None)
+                                                | _ :: _ -> None))))))
+                              | None -> None)
+                   else let (ds, rest) = b64_prefix s in
+                        (match vlq_all (S (length ds)) ds with
+                         | Some l ->
+                           (match l with
+                            | [] -> None
+                            | c :: l0 ->
+                              (match l0 with
+                               | [] ->
+                                 let st' = { d_line = st.d_line; d_col =
+                                   (Z.add st.d_col c); d_src = st.d_src;
+                                   d_sl = st.d_sl; d_sc = st.d_sc; d_name =
+                                   st.d_name }
+                                 in
+                                 (match decode_mappings_from f rest st' with
+                                  | Some ts ->
+                                    Some ({ rt_gl = st'.d_line; rt_gc =
+                                      st'.d_col; rt_src = None; rt_name =
+                                      None } :: ts)
+                                  | None -> None)
+                               | si :: l1 ->
+                                 (match l1 with
+                                  | [] -> None
+                                  | sl :: l2 ->
+                                    (match l2 with
+                                     | [] -> None
+                                     | sc :: l3 ->
+                                       (match l3 with
+                                        | [] ->
+                                          let st' = { d_line = st.d_line;
+                                            d_col = (Z.add st.d_col c);
+                                            d_src = (Z.add st.d_src si);
+                                            d_sl = (Z.add st.d_sl sl); d_sc =
+                                            (Z.add st.d_sc sc); d_name =
+                                            st.d_name }
+                                          in
+                                          (match decode_mappings_from f rest
+                                                   st' with
+                                           | Some ts ->
+                                             Some ({ rt_gl = st'.d_line;
+                                               rt_gc = st'.d_col; rt_src =
+                                               (Some ((st'.d_src, st'.d_sl),
+                                               st'.d_sc)); rt_name =
+                                               None } :: ts)
+                                           | None -> None)
+                                        | ni :: l4 ->
+                                          (match l4 with
+                                           | [] ->
+                                             let st' = { d_line = st.d_line;
+                                               d_col = (Z.add st.d_col c);
+                                               d_src = (Z.add st.d_src si);
+                                               d_sl = (Z.add st.d_sl sl);
+                                               d_sc = (Z.add st.d_sc sc);
+                                               d_name = (Z.add st.d_name ni) }
+                                             in
+                                             (match decode_mappings_from f
+                                                      rest st' with
+                                              | Some ts ->
+                                                Some ({ rt_gl = st'.d_line;
+                                                  rt_gc = st'.d_col; rt_src =
+                                                  (Some ((st'.d_src,
+                                                  st'.d_sl), st'.d_sc));
+                                                  rt_name = (Some
+                                                  st'.d_name) } :: ts)
+                                              | None -> None)
+                                           | _ :: _ -> None))))))
+                         | None -> None))
+         a)
+
+(** val decode_mappings : char list -> raw_token list option **)
+
+let decode_mappings s =
+  decode_mappings_from (S (length0 s)) s { d_line = N0; d_col = Z0; d_src =
+    Z0; d_sl = Z0; d_sc = Z0; d_name = Z0 }
 
 module NilEmpty =
  struct
@@ -3247,8 +5101,9 @@ let optchain_transform c fuel e p =
               e'
           in
           Some
-          (((mk_paren dUMMY (mk_seq dUMMY (app s.oc_assigns (cond :: [])))),
-          true), s.oc_p)
+          (((mk_paren (span_of e)
+              (mk_seq (span_of e) (app s.oc_assigns (cond :: [])))), true),
+          s.oc_p)
         | None -> Some ((e', false), s.oc_p)))
   | None -> None
 
